@@ -230,6 +230,45 @@ Norm(D, name, fs) ==
       present == SelectSeq(m.fields, LAMBDA f : Lookup(fs, f.tag) # 0)
   IN [k |-> "msg", fs |-> [i \in 1..Len(present) |-> [tag |-> present[i].tag, x |-> NormX(D, present[i].ty, fs[Lookup(fs, present[i].tag)].x)]]]
 
+(* ------------------------------------------------- what a conforming ENCODER writes *)
+\* The decoder above is lenient the way the encoding specification asks decoders to be (a varint
+\* wider than the field is truncated). An encoder has no such latitude: the number a varint carries
+\* is the transformation the declared type prescribes -- uint32 as itself and sint32 as ZigZag32 (both
+\* below 2^32), int32 / enum sign-extended to 64 bits, bool 0 or 1. Narrow is TRUE iff every known
+\* varint field of the encoding, at any depth, carries such a number.
+NarrowU(k, u) ==
+  CASE k \in {"uint32", "sint32"} -> u[3] = 0 /\ u[4] = 0
+    [] k \in {"int32", "enum"} -> IF u[2] >= 32768 THEN u[3] = 65535 /\ u[4] = 65535 ELSE u[3] = 0 /\ u[4] = 0
+    [] k = "bool" -> u[2] = 0 /\ u[3] = 0 /\ u[4] = 0 /\ u[1] \in {0, 1}
+    [] OTHER -> TRUE
+NarrowRec(k, r) ==
+  IF WireOf(k) # WT_VARINT THEN TRUE
+  ELSE IF r.wt = WT_VARINT THEN NarrowU(k, r.u)
+  ELSE IF r.wt = WT_LEN THEN LET u == UnpackVarints(r.bytes, 0, <<>>) IN u.ok => \A i \in 1..Len(u.vals) : NarrowU(k, u.vals[i])
+  ELSE TRUE
+RECURSIVE Narrow(_, _, _)
+Narrow(D, name, bytes) ==
+  LET p == ParseRecords(bytes)
+      m == Msg(D, name)
+      one(r) ==
+        LET fidx == {j \in 1..Len(m.fields) : m.fields[j].tag = r.tag} IN
+        IF fidx = {} THEN TRUE
+        ELSE LET f == m.fields[CHOOSE j \in fidx : TRUE]
+                 k == SK(f.ty)
+             IN IF f.label = "map" THEN
+                   (IF r.wt # WT_LEN THEN TRUE
+                    ELSE LET inner == ParseRecords(r.bytes) IN
+                         inner.ok => \A q \in 1..Len(inner.recs) :
+                            LET e == inner.recs[q] IN
+                            CASE e.tag = 1 -> NarrowRec(f.ty.map[1], e)
+                              [] e.tag = 2 -> (IF SK(f.ty.map[2]) = "msg"
+                                               THEN (e.wt = WT_LEN => Narrow(D, f.ty.map[2].msg, e.bytes))
+                                               ELSE NarrowRec(SK(f.ty.map[2]), e))
+                              [] OTHER -> TRUE)
+                ELSE IF k = "msg" THEN (r.wt = MsgWt(f) => Narrow(D, f.ty.msg, MsgBody(f, r)))
+                ELSE NarrowRec(k, r)
+  IN p.ok => \A i \in 1..Len(p.recs) : one(p.recs[i])
+
 \* Dec: [ok, v]; required fields (proto2) must be present
 RECURSIVE HasRequired(_, _, _)
 HasRequired(D, name, fs) ==
